@@ -508,6 +508,126 @@ def discovered_state(ctx, pkg, rule="R3"):
     ctx.floor(rule, "functions scanned for class-level writes", nscan, 190)
 
 
+# ------------------------------------------------------------------ R3 helpers: what a Network method installs / parses, helpers included
+
+def _private(name: str) -> bool:
+    return name.startswith("_") and not name.startswith("__")
+
+
+_CMPSYM = {"Eq": "==", "NotEq": "!=", "Lt": "<", "LtE": "<=", "Gt": ">", "GtE": ">=", "In": "in", "NotIn": "not in", "Is": "is", "IsNot": "is not"}
+_BINSYM = {"Add": "+", "Sub": "-", "Mult": "*", "Div": "/", "Mod": "%", "FloorDiv": "//", "Pow": "**", "BitOr": "|", "BitAnd": "&"}
+
+
+def _src(v, top=True):
+    """Python text of a reconstructed condition (as ast.unparse would print the expression it stands for)"""
+    from ..valueflow import show
+    k = v[0]
+    if k in ("param", "global"):
+        return v[1]
+    if k == "const":
+        return repr(v[1])
+    if k == "attr":
+        return f"{_src(v[1], False)}.{v[2]}"
+    if k == "bool":
+        t = (" and " if v[1] == "And" else " or ").join(_src(x, False) for x in v[2])
+        return t if top else f"({t})"
+    if k == "unop" and v[1] == "Not":
+        return f"not {_src(v[2], False)}"
+    if k == "cmp":
+        t = _src(v[2][0], False)
+        for o, x in zip(v[1], v[2][1:]):
+            t += f" {_CMPSYM.get(o, o)} {_src(x, False)}"
+        return t if top else f"({t})"
+    if k == "binop":
+        t = f"{_src(v[2], False)} {_BINSYM.get(v[1], v[1])} {_src(v[3], False)}"
+        return t if top else f"({t})"
+    if k == "call":
+        return f"{_src(v[1], False)}({', '.join([_src(a) for a in v[2]] + [f'{kk}={_src(x)}' for kk, x in v[3]])})"
+    if k == "meth":
+        return f"{_src(v[1], False)}.{v[2]}({', '.join([_src(a) for a in v[3]] + [f'{kk}={_src(x)}' for kk, x in v[4]])})"
+    if k == "sub":
+        return f"{_src(v[1], False)}[{_src(v[2])}]"
+    return show(v)
+
+
+def _guard_text(guards) -> str:
+    """the condition under which a statement runs, as one Python expression ('' = always)"""
+    from ..valueflow import norm_guard, simp
+    parts = []
+    for c, pol in guards:
+        c, pol = norm_guard((simp(c), pol))
+        if pol:
+            parts.append(c)
+        elif c[0] == "cmp" and len(c[1]) == 1 and c[1][0] in ("Eq", "In", "Is"):
+            parts.append(("cmp", ({"Eq": "NotEq", "In": "NotIn", "Is": "IsNot"}[c[1][0]],), c[2]))
+        else:
+            parts.append(("unop", "Not", c))
+    seen = []
+    for p_ in parts:
+        if p_ not in seen:
+            seen.append(p_)
+    if not seen:
+        return ""
+    return _src(seen[0]) if len(seen) == 1 else " and ".join(_src(x, False) for x in seen)
+
+
+class _InstallSummary:
+    """Per Network method: the statements that install this network's element lists into Species -- written in the method or in a
+    private helper it calls as a statement (the helper's own guards are added to those of the call) -- and the lines on which a
+    species name is parsed (Species(..), the reaction factory, a private helper that does either)."""
+
+    def __init__(self, pkg):
+        self.pkg = pkg
+        self.ci = pkg.cls("Network")
+        self._sites = {}
+        self._parse = {}
+
+    def sites(self, mname, depth=0):
+        from ..valueflow import Flow, simp
+        if mname in self._sites:
+            return self._sites[mname]
+        fn = self.ci.methods.get(mname)
+        out = []
+        self._sites[mname] = out            # recursion guard
+        if fn is None or depth > 3:
+            return out
+        SELF = ("param", fn.args.args[0].arg) if fn.args.args else ("param", "self")
+        fl = Flow(fn, NF)
+        for f in fl.facts:
+            if f.kind != "call" or f.value is None or f.value[0] != "meth":
+                continue
+            obj, name = simp(f.value[1]), f.value[2]
+            if obj == ("global", "Species") and name in ("set_known_elements", "set_known_pseudoelements"):
+                out.append({"what": "elements" if name == "set_known_elements" else "pseudo", "guards": tuple(f.guards), "line": f.line, "loops": bool(f.loops)})
+            elif obj == SELF and _private(name) and name in self.ci.methods and name != mname:
+                for x in self.sites(name, depth + 1):
+                    out.append({"what": x["what"], "guards": tuple(f.guards) + tuple(x["guards"]), "line": f.line, "loops": bool(f.loops) or x["loops"]})
+        return out
+
+    def parse_lines(self, mname, depth=0):
+        if mname in self._parse:
+            return self._parse[mname]
+        fn = self.ci.methods.get(mname)
+        out = []
+        self._parse[mname] = out
+        if fn is None or depth > 3:
+            return out
+        for n in ast.walk(fn):
+            if not isinstance(n, ast.Call):
+                continue
+            t = ast.unparse(n.func)
+            if t == "Species" or t.endswith("_reaction_factory"):
+                out.append(n.lineno)
+            elif isinstance(n.func, ast.Attribute) and isinstance(n.func.value, ast.Name) and n.func.value.id == "self" and n.func.attr in self.ci.methods and n.func.attr != mname:
+                callee = n.func.attr
+                if _private(callee):
+                    if self.parse_lines(callee, depth + 1):
+                        out.append(n.lineno)
+                elif callee in ("add_reaction", "add_reaction_from_file"):
+                    out.append(n.lineno)
+        return out
+
+
 def _r3(ctx, pkg):
     discovered_state(ctx, pkg, "R3")
     writes = _global_writes(pkg)
@@ -530,52 +650,51 @@ def _r3(ctx, pkg):
     ci = pkg.cls("Network")
     ctx.saw(NF, "Network")
     ninst = 0
+    summ = _InstallSummary(pkg)
     for mname, fn in ci.methods.items():
-        src = ast.unparse(fn)
-        parses = bool(re.search(r"\bSpecies\(", src)) or "_add_reaction(" in src or "add_reaction(" in src and mname not in ("add_reaction",) or "_reaction_factory" in src
-        installs = [n for n in ast.walk(fn) if isinstance(n, ast.Call) and ast.unparse(n.func) == "Species.set_known_elements"]
-        if mname in ("_add_reaction",):
-            continue        # private: always entered through add_reaction / add_reaction_from_file
-        if not parses and not installs:
+        if _private(mname):
+            continue        # private: always entered through a public entry point, where its statements are accounted for
+        sites = summ.sites(mname)
+        parses = summ.parse_lines(mname)
+        if not parses and not sites:
             continue
         key = f"Network.{mname}"
-        if not installs:
-            if mname in ("allowed_species.setter",) or "add_reaction" in src or "add_reaction_from_file" in src:
-                # delegates to an installing entry point before any name is parsed?
-                first_species = min([n.lineno for n in ast.walk(fn) if isinstance(n, ast.Call) and ast.unparse(n.func) == "Species"] or [10 ** 9])
-                first_deleg = min([n.lineno for n in ast.walk(fn) if isinstance(n, ast.Call) and ast.unparse(n.func) in ("self.add_reaction", "self.add_reaction_from_file")] or [10 ** 9])
-                if first_deleg < first_species:
-                    ctx.ok("R3", f"{key}:installation", (NF, fn.lineno), "delegates to an installing entry point before any species name is parsed")
-                    continue
+        first_species = min(parses or [10 ** 9])
+        if not sites:
+            # delegates to an installing entry point before any name is parsed?
+            deleg = [n.lineno for n in ast.walk(fn) if isinstance(n, ast.Call) and isinstance(n.func, ast.Attribute) and isinstance(n.func.value, ast.Name)
+                     and n.func.value.id == "self" and not _private(n.func.attr) and summ.sites(n.func.attr)]
+            own = [n.lineno for n in ast.walk(fn) if isinstance(n, ast.Call) and ast.unparse(n.func) == "Species"] + \
+                  [ln for ln in parses if ln not in deleg]
+            if deleg and min(deleg) < min(own or [10 ** 9]):
+                ctx.ok("R3", f"{key}:installation", (NF, fn.lineno), "delegates to an installing entry point before any species name is parsed")
+                continue
             ctx.bad("R3", f"{key}:installation", (NF, fn.lineno),
                     f"Network.{mname} parses species names but never installs this network's element lists: it uses whatever lists the last network left in Species")
             continue
         ninst += 1
-        inst = installs[0]
-        # guarded?
-        guard = None
-        for n in ast.walk(fn):
-            if isinstance(n, ast.If) and any(inst is x for x in ast.walk(n)):
-                guard = n
-                break
-        pseudo = any(isinstance(n, ast.Call) and ast.unparse(n.func) == "Species.set_known_pseudoelements" for n in ast.walk(fn))
-        first_species = min([n.lineno for n in ast.walk(fn) if isinstance(n, ast.Call) and ast.unparse(n.func) == "Species"] or [10 ** 9])
-        before = inst.lineno < first_species
-        ctx.check(pseudo and before, "R3", f"{key}:installs both lists first", (NF, inst.lineno), "elements and pseudo-elements are installed before any name is parsed")
-        gtxt = "".join(ast.unparse(guard.test).split()) if guard is not None else ""
-        ctx.check(guard is None, "R3", f"{key}:unconditional installation" + (f"[if {gtxt}]" if gtxt else ""), (NF, inst.lineno),
-                  "the network's lists are installed unconditionally" if guard is None else
-                  f"the installation is skipped when `{ast.unparse(guard.test)[:70]}` is false: a network with default (empty) lists inherits the tables of whichever "
+        el = [x for x in sites if x["what"] == "elements"]
+        ps = [x for x in sites if x["what"] == "pseudo"]
+        inst = (el or ps)[0]
+        before = inst["line"] < first_species
+        ctx.check(bool(el) and bool(ps) and before, "R3", f"{key}:installs both lists first", (NF, inst["line"]), "elements and pseudo-elements are installed before any name is parsed")
+        if inst["loops"]:
+            ctx.unrec("R3", f"{key}:unconditional installation", (NF, inst["line"]), "the installation sits in a loop: whether it runs on every call is not decided")
+            continue
+        gtxt = _guard_text(inst["guards"])
+        gkey = "".join(gtxt.split())
+        ctx.check(not gtxt, "R3", f"{key}:unconditional installation" + (f"[if {gkey}]" if gtxt else ""), (NF, inst["line"]),
+                  "the network's lists are installed unconditionally" if not gtxt else
+                  f"the installation is skipped when `{gtxt[:70]}` is false: a network with default (empty) lists inherits the tables of whichever "
                   "network was used before it in this process",
-                  expected="Species.set_known_elements(..) on every call", found=f"if {ast.unparse(guard.test)[:70]}:" if guard is not None else "")
+                  expected="Species.set_known_elements(..) on every call", found=f"if {gtxt[:70]}:" if gtxt else "")
     ctx.floor("R3", "installing entry points of Network", ninst, 6)
     # entry points that render: to_code / export build Species for ODE modifiers (through TemplateLoader) without installation
     for mname in ("to_code", "export"):
         fn = ci.methods.get(mname)
         if fn is None:
             continue
-        src = ast.unparse(fn)
-        ok = "Species.set_known_elements" in src
+        ok = any(x["what"] == "elements" for x in summ.sites(mname))
         ctx.check(ok, "R3", f"Network.{mname}:installation", (NF, fn.lineno),
                   "installs the network's lists before rendering" if ok else
                   f"Network.{mname} renders (TemplateLoader builds Species(..) for ODE modifiers and Species.alias consults the global element list) without installing "
@@ -622,37 +741,42 @@ def krome_reset(ctx, pkg, rule="R4"):
                   f"`{a}` is reset before every file" if a in reset else
                   f"`{a}` is changed by directive lines (preprocessing) but not reset in initialize(): directives of one file (also of a read that raised half-way) act on the next file")
     # Network calls initialize before reading, on every path
+    from ..valueflow import Flow, simp, norm_guard, show
     net = pkg.cls("Network")
     for mname in ("add_reaction_from_file", "add_reaction"):
         fn = net.methods[mname]
-        init_calls = [n for n in ast.walk(fn) if isinstance(n, ast.Call) and isinstance(n.func, ast.Attribute) and n.func.attr == "initialize" and isinstance(n.func.value, ast.Name)]
-        reads = [n for n in ast.walk(fn) if isinstance(n, ast.Call) and ast.unparse(n.func) == "self._add_reaction"]
-        ok = len(init_calls) == 1 and reads and init_calls[0].lineno < min(r.lineno for r in reads)
+        fl = Flow(fn, NF)
+        init_calls = [f for f in fl.facts if f.kind == "call" and f.target == "initialize" and f.value is not None and f.value[0] == "meth" and not f.value[3]]
+        reads_lines = [n.lineno for n in ast.walk(fn) if isinstance(n, ast.Call) and ast.unparse(n.func) == "self._add_reaction"]
+        if not init_calls:
+            # not in this method: in a private helper it calls?  then order and conditions are not decided here
+            helpers = [n.func.attr for n in ast.walk(fn) if isinstance(n, ast.Call) and isinstance(n.func, ast.Attribute) and isinstance(n.func.value, ast.Name)
+                       and n.func.value.id == "self" and _private(n.func.attr) and n.func.attr in net.methods]
+            if any(isinstance(c, ast.Call) and isinstance(c.func, ast.Attribute) and c.func.attr == "initialize" for h in helpers for c in ast.walk(net.methods[h])):
+                ctx.unrec(rule, f"Network.{mname}:initialize before reading", (NF, fn.lineno), "the format class is initialised inside a helper: order and conditions are not decided")
+                continue
+        ok = len(init_calls) == 1 and bool(reads_lines) and init_calls[0].line < min(reads_lines)
         ctx.check(ok, rule, f"Network.{mname}:initialize before reading", (NF, fn.lineno), "the format class is initialised before any line is parsed")
         # ... for EVERY file / string: the only condition it may depend on is that the format class exists
         if len(init_calls) == 1:
-            recv = init_calls[0].func.value.id
-            par = _parents(fn)
-            conds = []
-            x = init_calls[0]
-            while x in par:
-                p_ = par[x]
-                if isinstance(p_, ast.If) and x is not p_.test:
-                    conds.append(ast.unparse(p_.test))
-                if isinstance(p_, (ast.For, ast.While)):
-                    conds.append("<loop>")
-                x = p_
-            def bare(c):
-                c = c.strip()
-                while c.startswith("not "):
-                    c = c[4:].strip()
-                return c[1:-1].strip() if c.startswith("(") and c.endswith(")") else c
-            # a Reaction INSTANCE was parsed elsewhere: nothing is read here, nothing to reset
-            extra = [c for c in conds if bare(c) not in (recv, f"{recv} is None", f"{recv} is not None") and not re.fullmatch(r"isinstance\(\w+, Reaction\)", bare(c))]
-            ctx.check(not extra, rule, f"Network.{mname}:initialize for every file", (NF, init_calls[0].lineno),
+            f = init_calls[0]
+            recv = simp(f.value[1])
+            rtxt = _src(recv)
+            extra = ["<loop>"] if f.loops else []
+            for g in f.guards:
+                c, pol = norm_guard((simp(g[0]), g[1]))
+                if c == recv:
+                    continue                      # the format class exists (whichever way the test is written)
+                if c[0] == "cmp" and c[1] in (("Is",), ("Eq",)) and c[2] == (recv, ("const", None)):
+                    continue
+                # a Reaction INSTANCE was parsed elsewhere: nothing is read here, nothing to reset
+                if c[0] == "call" and c[1] == ("global", "isinstance") and len(c[2]) == 2 and c[2][0][0] == "param" and c[2][1] == ("global", "Reaction"):
+                    continue
+                extra.append(_guard_text([(c, pol)]))
+            ctx.check(not extra, rule, f"Network.{mname}:initialize for every file", (NF, f.line),
                       "the reset depends on nothing but the existence of the format class" if not extra else
                       f"the per-file reset of the format class is skipped when `{extra[0]}` does not hold: directive state (@format, @common, @var) of the previous file decodes the next one",
-                      expected=f"{recv}.initialize() on every path that reads", found=" and ".join(extra))
+                      expected=f"{rtxt[:60]}.initialize() on every path that reads", found=" and ".join(extra))
 
 
 def _r4(ctx, pkg):
@@ -681,6 +805,34 @@ MUTANTS = [
     {"name": "new-global-writer", "file": "naunet/templateloader.py", "old": "        species_kwargs = species_kwargs or {}\n\n        rate_sym", "new": "        species_kwargs = species_kwargs or {}\n        Species._replacement.update({})\n\n        rate_sym", "rules": ["R3"]},
     {"name": "sources-joined-from-set", "file": "naunet/configuration.py", "old": "        self._network_elements = [x.name for x in network.elements]", "new": "        self._network_elements = [x.name for x in set(network.elements)]", "rules": ["R1"]},
 ]
+_INST = "        if self._known_elements or self._known_pseudo_elements:\n            Species.set_known_elements(self._known_elements)\n            Species.set_known_pseudoelements(self._known_pseudo_elements)\n"
+_HELPER_AT = "    def __contains__(self, reac: Reaction) -> bool:\n"
+MUTANTS += [
+    # the installation moved into a private helper: the helper's own guard and the guard of the call both count
+    {"name": "install-helper-skips-when-same", "edits": [
+        {"file": NF, "old": _INST, "new": "        self._install_lists()\n", "count": 6},
+        {"file": NF, "old": _HELPER_AT, "new": "    def _install_lists(self) -> None:\n        if Species.known_elements() == self._known_elements:\n            return\n"
+                                               "        Species.set_known_elements(self._known_elements)\n        Species.set_known_pseudoelements(self._known_pseudo_elements)\n\n" + _HELPER_AT}], "rules": ["R3"]},
+    {"name": "install-helper-never-called-by-setter", "edits": [
+        {"file": NF, "old": _INST, "new": "        self._install_lists()\n", "count": 6},
+        {"file": NF, "old": "        self._install_lists()\n\n        self._required_species = [", "new": "        self._required_species = ["},
+        {"file": NF, "old": _HELPER_AT, "new": "    def _install_lists(self) -> None:\n" + _INST + "\n" + _HELPER_AT}], "rules": ["R3"]},
+    {"name": "initialize-only-for-first-string", "file": NF, "old": "            if rclass:\n                rclass.initialize()\n            else:\n                raise RuntimeError(f\"Unknown format: {format}\")",
+     "new": "            fresh = not self.reaction_list\n            if not rclass:\n                raise RuntimeError(f\"Unknown format: {format}\")\n            if fresh:\n                rclass.initialize()", "rules": ["R4"]},
+]
 BENIGN = [
+    {"name": "installation-in-private-helper", "edits": [
+        {"file": NF, "old": _INST, "new": "        self._install_lists()\n", "count": 6},
+        {"file": NF, "old": _HELPER_AT, "new": "    def _install_lists(self) -> None:\n" + _INST + "\n" + _HELPER_AT}]},
+    {"name": "installation-helper-with-guard-clause", "edits": [
+        {"file": NF, "old": _INST, "new": "        self._install_lists()\n", "count": 6},
+        {"file": NF, "old": _HELPER_AT, "new": "    def _install_lists(self) -> None:\n        if not (self._known_elements or self._known_pseudo_elements):\n            return\n\n"
+                                               "        Species.set_known_elements(self._known_elements)\n        Species.set_known_pseudoelements(self._known_pseudo_elements)\n\n" + _HELPER_AT}]},
+    {"name": "initialize-behind-cached-test-and-guard-clause", "edits": [
+        {"file": NF, "old": "        if not isinstance(reaction, Reaction):\n            # create reaction instance from string\n            # change some global settings or class attibutes if needed\n"
+                            "            if rclass:\n                rclass.initialize()\n            else:\n                raise RuntimeError(f\"Unknown format: {format}\")",
+         "new": "        from_string = not isinstance(reaction, Reaction)\n        if from_string:\n            if not rclass:\n                raise RuntimeError(f\"Unknown format: {format}\")\n            rclass.initialize()"},
+        {"file": NF, "old": "        if rclass:\n            rclass.initialize()\n        else:\n            raise RuntimeError(f\"Unknown format: {format}\")\n\n        with open",
+         "new": "        if rclass is None:\n            raise RuntimeError(f\"Unknown format: {format}\")\n        rclass.initialize()\n\n        with open"}]},
     {"name": "sorted-set-iteration", "file": NF, "old": "        source = self._reactants.difference(self._products)", "new": "        source = self._reactants.difference(self._products)\n        _names = [s.name for s in sorted(source)]"},
 ]
